@@ -755,7 +755,7 @@ def run(run):
         wi = plain_instance(e["witness"], len(insts) + len(wit))
         wi["finding"] = e["key"]
         wit.append(wi)
-    workers = int(os.environ.get("VERIF_C02_WORKERS", "10"))
+    workers = int(os.environ.get("VERIF_C02_WORKERS", "12"))
     t0 = real_time.time()
     recs = run_pool(wit + insts, workers)   # witnesses first: fresh worker processes
     run.cov["impl_seconds"] = round(real_time.time() - t0, 1)
@@ -853,6 +853,10 @@ def run(run):
         if an["npops"] <= 1500:
             cases.append(g_case(inst, rec, an))
             case_meta.append((inst, rec, an))
+    if not run.cov["samples"] and case_meta:
+        i0, r0, a0 = case_meta[0]
+        run.sample({"grammar": i0["gname"], "formula": i0["formula"], "settings": i0["settings"],
+                    "clock": i0["clock"], "outcomes": a0["seq"]})
     run.cov["histograms"] = hist
     run.cov["instances"] = len(insts)
     run.cov["model_cases"] = len(cases)
@@ -862,9 +866,9 @@ def run(run):
     try:
         bad, dt = lib.coq_mismatches("c02", "Outcome Loop", "tcase_ok", cases, shard=25)
         run.cov["coq_seconds"] = round(dt, 1)
-        for i in bad:
+        for n, i in enumerate(bad):
             inst, rec, an = case_meta[i]
-            model = lib.coq_eval("c02_diag", "Outcome Loop", f"trun {cases[i]}")
+            model = lib.coq_eval("c02_diag", "Outcome Loop", f"trun {cases[i]}") if n < 2 else "(not evaluated)"
             viol_corr.append({"kind": "model and implementation disagree on a call history",
                               "observed": an["obs"], "model": model[-1500:], "witness": witness_of(inst, rec)})
     except RuntimeError as e:
